@@ -64,7 +64,9 @@ Step(e) ==
   ELSE IF ~synced THEN
      /\ UNCHANGED <<st, bad, synced>> /\ cnt' = [cnt EXCEPT !.skipped = @ + 1]
   ELSE
-  LET exp == Apply(st, e.a)
+  LET exp0 == Apply(st, e.a)
+      \* where the specification also allows the statement to be rejected, follow the implementation's choice
+      exp == IF exp0.alt = "err" /\ OutClass(e.out) = "err" THEN Fail(st) ELSE exp0
       o   == e.st
   IN IF e.out = "panic" THEN
         /\ bad' = IF NBad("panic") < MaxBad THEN Append(bad, BadRec(e, "panic", exp.out, "", <<>>)) ELSE bad
